@@ -13,6 +13,7 @@
 -/
 import Y0.Lemmas.Ctf
 import Y0.Lemmas.CtfScm
+import Y0.Lemmas.CtfComponents
 
 namespace Y0.Ctf
 open Relation Y0.MG
@@ -398,6 +399,113 @@ theorem convertOne_factorForm (g : MG Name) (v w : Var) (hloop : ¬ g.DiEdge v.n
   refine ⟨fun p hp => (hex p).2 hp, fun hself => ?_⟩
   rw [hn] at hself
   exact hloop (by simpa [hn] using (hex v.name).1 hself)
+
+/-! ## 4. ancestral components (Def. 4.2) -/
+
+/-- **Def. 4.2.**  `_compute_ancestral_components_from_ancestral_sets` returns the FINEST partition of the union of the
+input sets that is closed under overlap (two sets with a common graph vertex) and under bidirected adjacency between
+variables IN the sets:
+ 1. every returned component is the union of exactly one `SameComponent` class of input sets (so nothing is merged
+    without a chain of links — the F8b defect merged `{A}` and `{B}` through a vertex outside all sets — and nothing
+    that is linked is kept apart);
+ 2. every variable of every input set is in some component;
+ 3. different components have no graph vertex in common. -/
+theorem ancestral_components_spec (g : MG Name) (sets : List (List Var)) :
+    (∀ C ∈ componentsFromSets g sets, ∃ s ∈ sets, s ≠ [] ∧
+        ∀ x, x ∈ C ↔ ∃ t ∈ sets, SameComponent g sets s t ∧ x ∈ t) ∧
+    (∀ s ∈ sets, ∀ x ∈ s, ∃ C ∈ componentsFromSets g sets, x ∈ C) ∧
+    (componentsFromSets g sets).Pairwise (fun C D => ∀ a ∈ C, ∀ b ∈ D, a.name ≠ b.name) := by
+  refine ⟨fun C hC => ?_, fun s hs x hx => ?_, ?_⟩
+  · -- (1)
+    obtain ⟨S₀, hS₀n, hS₀, hchar⟩ := mergeBy_class (mergeCommon sets) (biLinked g) C hC
+    obtain ⟨s₀, hcl⟩ := classOf_of_mem sets S₀ hS₀
+    have hs₀ := (classOf_mem sets S₀ s₀ hcl).2.1
+    have hne : s₀ ≠ [] := by
+      obtain ⟨c, hc, _, hsc⟩ := hcl
+      have hn : s₀ ∈ (linkGraph sets shareBase).nodes :=
+        (districts_cover _ (wf_linkGraph sets shareBase) s₀).2 ⟨c, hc, hsc⟩
+      obtain ⟨_, t, _, hR | hR⟩ := (mem_nodes_linkGraph sets shareBase s₀).1 hn
+      · obtain ⟨a, ha, _⟩ := (shareBase_iff s₀ t).1 hR
+        intro h0; rw [h0] at ha; cases ha
+      · obtain ⟨_, _, b, hb, _⟩ := (shareBase_iff t s₀).1 hR
+        intro h0; rw [h0] at hb; cases hb
+    refine ⟨s₀, hs₀, hne, fun x => ?_⟩
+    rw [hchar x]
+    constructor
+    · rintro ⟨S, hconn, hx⟩
+      exact components_sound g sets S₀ s₀ S hcl hconn x hx
+    · rintro ⟨t, _, hchain, hx⟩
+      obtain ⟨S, hclS, hconn⟩ := components_complete g sets S₀ s₀ t hcl hchain
+      exact ⟨S, hconn, (classOf_mem sets S t hclS).2.2.1 x hx⟩
+  · -- (2)
+    obtain ⟨S, hcl⟩ := classOf_exists sets s hs x hx
+    have hS := (classOf_mem sets S s hcl).1
+    obtain ⟨C, hC, hchar⟩ := mergeBy_of_node (mergeCommon sets) (biLinked g) S
+      (mem_nodes_bidirected g (mergeCommon sets) S hS)
+    exact ⟨C, hC, (hchar x).2 ⟨S, .refl, (classOf_mem sets S s hcl).2.2.1 x hx⟩⟩
+  · -- (3)
+    unfold componentsFromSets mergeBidirected mergeBy
+    rw [List.pairwise_map]
+    have hwf := wf_linkGraph (mergeCommon sets) (biLinked g)
+    refine (districts_disjoint _ hwf).imp_of_mem ?_
+    intro c d hc hd hdisj a ha b hb hab
+    obtain ⟨S, hSc, haS⟩ := (mem_union_flatten c a).1 ha
+    obtain ⟨S', hSd, hbS'⟩ := (mem_union_flatten d b).1 hb
+    have hSn : S ∈ (linkGraph (mergeCommon sets) (biLinked g)).nodes := (districts_cover _ hwf S).2 ⟨c, hc, hSc⟩
+    have hSn' : S' ∈ (linkGraph (mergeCommon sets) (biLinked g)).nodes := (districts_cover _ hwf S').2 ⟨d, hd, hSd⟩
+    have := mergeCommon_base_disjoint sets S S' ((mem_nodes_linkGraph _ _ _).1 hSn).1
+      ((mem_nodes_linkGraph _ _ _).1 hSn').1 a b haS hbS' hab
+    subst this
+    exact hdisj S hSc hSd
+
+/-- `get_ancestral_components` applies the above to the ancestral sets `An(W_t)` computed in `G` with the edges out of
+`X_*(W_t) = V(‖X_*‖ ∩ An(W_t))` removed, one per root variable -/
+theorem ancestral_components_eq (g : MG Name) (cond roots : List Var) (out : List (List Var))
+    (h : ancestralComponents g cond roots = .ok out) :
+    ∃ sets, roots.mapM (ancestralSetAfter g cond) = .ok sets ∧ out = componentsFromSets g sets := by
+  unfold ancestralComponents at h
+  simp only [bind, Except.bind] at h
+  cases hs : roots.mapM (ancestralSetAfter g cond) with
+  | error e => rw [hs] at h; cases h
+  | ok sets =>
+    rw [hs] at h
+    simp only [pure, Except.pure, Except.ok.injEq] at h
+    exact ⟨sets, rfl, h.symm⟩
+
+/-- the ancestral set of one root: `X_*(W_t)` are the vertices of the minimised conditioned variables that are
+counterfactual ancestors of the root, and the set is `An(W_t)` (Def. 2.1, `ctf_ancestors_spec`) in the graph without
+the edges out of `X_*(W_t)` -/
+theorem ancestralSetAfter_eq (g : MG Name) (cond : List Var) (root : Var) (A : List Var)
+    (h : ancestralSetAfter g cond root = .ok A) :
+    ∃ c, ctfAncestors (g.removeOutEdges c) root = .ok A ∧
+      ∀ n, n ∈ c ↔ ∃ m, (∃ x ∈ cond, minimize g x = .ok m) ∧ (∃ A₀, ctfAncestors g root = .ok A₀ ∧ m ∈ A₀) ∧
+        m.name = n := by
+  unfold ancestralSetAfter at h
+  simp only [bind, Except.bind] at h
+  cases hc : condInAncestralSet g cond root with
+  | error e => rw [hc] at h; cases h
+  | ok c =>
+    rw [hc] at h
+    refine ⟨c, h, fun n => ?_⟩
+    unfold condInAncestralSet minimizeSet at hc
+    simp only [bind, Except.bind] at hc
+    cases hm : cond.mapM (minimize g) with
+    | error e => rw [hm] at hc; cases hc
+    | ok ms =>
+      rw [hm] at hc
+      simp only [pure, Except.pure] at hc
+      cases ha : ctfAncestors g root with
+      | error e => rw [ha] at hc; cases hc
+      | ok A₀ =>
+        rw [ha] at hc
+        simp only [Except.ok.injEq] at hc
+        subst hc
+        simp only [mem_dedup', List.mem_map, List.mem_filter, mem'_iff, mapM_ok_mem _ _ _ hm]
+        constructor
+        · rintro ⟨m, ⟨hmm, hmA⟩, rfl⟩; exact ⟨m, hmm, ⟨A₀, rfl, hmA⟩, rfl⟩
+        · rintro ⟨m, hmm, ⟨A₁, hA₁, hmA⟩, rfl⟩
+          cases hA₁
+          exact ⟨m, ⟨hmm, hmA⟩, rfl⟩
 
 /-! ## non-vacuity: Figure 2a of Correa, Lee, Bareinboim 2022 (X=0, Y=1, W=2, Z=3) and the F8 witnesses -/
 
